@@ -13,7 +13,7 @@ import (
 // C16: help and man page show exactly the visible interface.
 
 func c16Cfg() *DeclCfg {
-	types := []TypeSpec{{K: KString}, {K: KString}, {K: KBool}, {K: KInt}, {K: KString, W: WSlice}, {K: KFloat64}, {K: KString, W: WMap, MapKey: KString}, {K: KDuration}, {K: KBool, W: WSlice}, {K: KInt64}}
+	types := []TypeSpec{{K: KString}, {K: KString}, {K: KBool}, {K: KInt}, {K: KString, W: WSlice}, {K: KFloat64}, {K: KString, W: WMap, MapKey: KString}, {K: KDuration}, {K: KBool, W: WSlice}, {K: KInt64}, {K: KOnOff}, {K: KOnOff, W: WSlice}}
 	return &DeclCfg{
 		MaxDepth: 3, MaxFan: 5, PCmds: 65, Types: types, OptsMin: 1, OptsMax: 4, SubGroupsMax: 2, PInline: 20, NestMax: 2,
 		PNamespace: 40, PEnvNS: 40, PShortOnly: 12, PLongOnly: 35, PDefault: 45, PDefaultMask: 45, PProgAttr: 30, PEnv: 40, PChoices: 20, PHidden: 25, PHiddenGrp: 20, PHiddenCmd: 25,
